@@ -93,7 +93,21 @@ def check_c08(tier, seed, log=print):
             tops = sorted(int(x) for x in tops.split(','))
             if len(samples) < 5:
                 samples.append(dict(definition=c['src'], witness_hex=whex, context=ctx, tied_leaves=tops, derive_errors=cap.errs[:2]))
-            if not derive_amb:
+            # what the user sees: the definition must be refused, and the diagnostics must carry the literal of every tied pattern
+            # (the text of the literal as written, from the hook's SRC lines - not the wording of the message)
+            lit = {}
+            for l_ in cap.dump:
+                if l_.startswith('SRC '):
+                    t_ = l_.split(' ')
+                    lit[int(t_[1])] = bytes.fromhex(t_[2]).decode('utf-8', 'replace') if len(t_) > 2 else ''
+            unnamed = [l for l in tops if lit.get(l) and not any(lit[l] in e for e in cap.errs)]
+            if derive_amb and (cap.verdict == 'ACCEPT' or unnamed):
+                run.violation('silent-choice', dict(definition=c['src'], witness_hex=whex, witness_context_prev_next=ctx, witness_text=bytes.fromhex(whex if whex != '-' else '').decode('utf-8', 'replace'),
+                                                    tied_leaves=tops, leaves_missing_from_the_diagnostics=unnamed, derive_verdict=cap.verdict, derive_errors=cap.errs,
+                                                    what='two patterns of equal top priority both match the witness and the graph records the ambiguity, but the compile errors the user gets '
+                                                         'do not refuse the definition / do not name every tied pattern'),
+                              key='silent|' + c['src'])
+            elif not derive_amb:
                 run.violation('silent-choice', dict(definition=c['src'], witness_hex=whex, witness_context_prev_next=ctx, witness_text=bytes.fromhex(whex if whex != '-' else '').decode('utf-8', 'replace'),
                                                     tied_leaves=tops, derive_verdict=cap.verdict, derive_errors=cap.errs,
                                                     what='two patterns of equal top priority both match the witness, but the derive reports no ambiguity'),
